@@ -126,6 +126,7 @@ fn run_bounded(c: &Cfg) -> (String, bool, Option<bool>) {
     let ppace = c.ppace.clone();
     let d0 = done_tx.clone();
     let tail = c.tail;
+    let sort_p = c.sort;
     let restarting = c.restarting;
     let gone = std::sync::Arc::new(std::sync::atomic::AtomicBool::new(false));
     let gone_p = gone.clone();
@@ -154,7 +155,16 @@ fn run_bounded(c: &Cfg) -> (String, bool, Option<bool>) {
             let base_recv = msgs.iter().map(|m| m.recv).max().unwrap_or(last.recv);
             // (paced: the failure has to travel upstream through every stage thread, which takes a few scheduler wake-ups;
             //  a source that dumps its whole tail into the channels within microseconds would not be a live one)
-            for k in 0..tail * 10 {
+            // the source is live: it goes on (one message per simulated second) until a send fails - or, when nothing ever tells
+            // it to stop, for 6 s of real time. (A finite tail would not do: through channels of capacity 0 or 1 the send helper
+            // passes about 100 messages per second, a failure needs one message per stage to travel upstream, and a producer
+            // that is done with its tail before that has not been stopped by anybody.)
+            let t_tail = std::time::Instant::now();
+            let _ = sort_p;
+            for k in 0..usize::MAX {
+                if t_tail.elapsed() > Duration::from_secs(6) {
+                    break;
+                }
                 // (restarting: a boot of 25 s - one message per second, time stamps from 0 - every 30 s)
                 let ts = if restarting { (k as u32 % 30).min(25) * 10_000 } else { last.ts.saturating_add((k as u32 + 1).saturating_mul(10_000)) };
                 if restarting && k % 30 > 25 {
@@ -178,7 +188,13 @@ fn run_bounded(c: &Cfg) -> (String, bool, Option<bool>) {
     });
     let d1 = done_tx.clone();
     let t1 = std::thread::spawn(move || {
-        let w = parse_lifecycles_buffered_from_stream(lcs_w, rx0, &|m| sync_sender_send_delay_if_full(m, &tx1));
+        let dbg = std::env::var("VERIF_PIPE_DEBUG").is_ok();
+        let w = parse_lifecycles_buffered_from_stream(lcs_w, rx0, &|m| {
+            if dbg && m.index % 25 == 0 {
+                eprintln!("lifecycle stage sends index {} lc {}", m.index, m.lifecycle);
+            }
+            sync_sender_send_delay_if_full(m, &tx1)
+        });
         drop(tx1);
         let _ = d1.send(1);
         w
@@ -194,7 +210,22 @@ fn run_bounded(c: &Cfg) -> (String, bool, Option<bool>) {
     let lr = lcs_r.clone();
     let t3 = std::thread::spawn(move || {
         if sort {
-            let _ = adlt::utils::buffer_sort_messages(rx2, &|m| sync_sender_send_delay_if_full(m, &tx3), &lr, 3, 2_000_000);
+            let dbg = std::env::var("VERIF_PIPE_DEBUG").is_ok();
+            let r = adlt::utils::buffer_sort_messages(
+                rx2,
+                &|m| {
+                    if dbg {
+                        eprintln!("sort stage releases index {} recv {} at {:?}", m.index, m.reception_time_us, std::time::SystemTime::now().duration_since(std::time::UNIX_EPOCH).unwrap().as_millis() % 100000);
+                    }
+                    sync_sender_send_delay_if_full(m, &tx3)
+                },
+                &lr,
+                3,
+                2_000_000,
+            );
+            if dbg {
+                eprintln!("sort stage ended: {:?}", r.is_ok());
+            }
         } else {
             for m in rx2 {
                 if sync_sender_send_delay_if_full(m, &tx3).is_err() {
@@ -235,11 +266,18 @@ fn run_bounded(c: &Cfg) -> (String, bool, Option<bool>) {
     // every stage has to terminate
     let mut finished = 0;
     let deadline = std::time::Instant::now() + Duration::from_secs(20);
+    let mut done_ids = vec![];
     while finished < 5 {
         match done_rx.recv_timeout(deadline.saturating_duration_since(std::time::Instant::now())) {
-            Ok(_) => finished += 1,
+            Ok(k) => {
+                finished += 1;
+                done_ids.push(k);
+            }
             Err(_) => break,
         }
+    }
+    if finished < 5 && std::env::var("VERIF_PIPE_DEBUG").is_ok() {
+        eprintln!("stages that terminated: {:?}", done_ids);
     }
     let terminated = finished == 5;
     if terminated {
@@ -286,7 +324,9 @@ fn gen(rng: &mut Rng, tier: u32) -> String {
     let mut tail = 0;
     if drop >= 0 && rng.chance(2) {
         tail = 300;
-        sort = false;
+        // (a live source in front of the sorted pipeline as well: the sort stage has to notice the loss of the consumer
+        //  when it releases a message)
+        sort = rng.chance(3);
         if fe > 0 {
             fe = 0;
         }
@@ -296,7 +336,16 @@ fn gen(rng: &mut Rng, tier: u32) -> String {
     }
     // half of the live sources restart every 30 s: the detector then always has a lifecycle under observation, never forwards
     // directly, and meets the closed channel only when a confirmation releases queued messages
-    let restarting = tail > 0 && rng.chance(2);
+    let restarting = tail > 0 && !sort && rng.chance(2);
+    if tail > 0 && sort {
+        // the sort stage may hold everything back for a long (simulated) time, then the whole tail flows through the pipeline:
+        // a rendezvous channel costs 10 ms per message (the send helper sleeps when the receiver is not waiting already)
+        for c in caps.iter_mut() {
+            if c == "0" {
+                *c = "1".to_string();
+            }
+        }
+    }
     if restarting {
         for c in caps.iter_mut() {
             if c == "1000" {
